@@ -11,7 +11,10 @@ from ..common import Verdict
 
 INJECTED = ["AppHandle", "tauri::AppHandle", "AppHandle<R>", "tauri::AppHandle<R>", "State<'_, AppState>", "tauri::State<'_, AppState>",
             "State<'_, Mutex<AppState>>", "tauri::State<'_, std::sync::Mutex<AppState>>", "Window<R>", "tauri::Window", "tauri::Window<R>",
-            "WebviewWindow", "tauri::WebviewWindow", "WebviewWindow<R>", "tauri::WebviewWindow<R>", "tauri::ipc::Request<'_>"]
+            "WebviewWindow", "tauri::WebviewWindow", "WebviewWindow<R>", "tauri::WebviewWindow<R>", "tauri::ipc::Request<'_>",
+            # module-qualified spellings of the same framework types (tauri::window::Window, tauri::webview::WebviewWindow exist in Tauri 2)
+            "tauri::window::Window<R>", "tauri::webview::WebviewWindow<R>", "tauri::webview::WebviewWindow", "tauri::AppHandle<tauri::Wry>",
+            "tauri::State<'_, std::sync::Arc<Mutex<AppState>>>", "State<'_, std::collections::HashMap<String, AppState>>"]
 CHANNELS = ["Channel<Msg>", "tauri::ipc::Channel<Msg>", "Channel<String>", "Channel<Vec<Msg>>"]
 NAMES = ["id", "user_id", "first_name_2", "a", "x1", "y_1", "get_2fa", "_lead", "__dunder", "a__b", "x___y", "trailing_", "http_status_code",
          "a1_b2_c3", "on_event", "on_progress", "_", "z_9_z", "very_long_parameter_name_with_many_words", "r#type", "r#match", "is_ok", "i", "n2"]
@@ -52,14 +55,45 @@ def project_src(cmds):
     return [("lib.rs", "".join(src))]
 
 
+def tsparse_unquote(lit):
+    from .. import tsparse
+    toks, _ = tsparse.lex(lit)
+    return toks[0].v if toks and toks[0].k == "str" else lit.strip('"')
+
+
 def object_keys_of_expr(e, out, fn_name):
     """symbolic key set of the second invoke argument. returns (keys:set | None, how)"""
     ifaces = out.interfaces()
     consts = out.consts()
     aliases = out.aliases()
 
+    def text_keys(header, closer):
+        """lenient fallback when a declaration does not parse (e.g. a Rust path leaked into one member's TYPE): the key names
+        are still read off the member lines, so a key that should not exist is not hidden behind a syntax error elsewhere"""
+        import re
+        text = out.texts.get("types.ts", "")
+        i = text.find(header)
+        if i < 0:
+            return None
+        j = text.find(closer, i)
+        if j < 0:
+            return None
+        keys = {}
+        for line in text[i + len(header):j].split("\n"):
+            m = re.match(r'^\s*("(?:[^"\\]|\\.)*"|[A-Za-z_$][\w$]*)\s*(\??):(.*)$', line)
+            if m and not line.strip().startswith("["):
+                k = m.group(1)
+                if k.startswith('"'):
+                    k = tsparse_unquote(k)
+                keys[k] = bool(m.group(2)) or m.group(3).rstrip().rstrip(",").endswith(".optional()")
+        return keys
+
     def iface_keys(name):
         it = ifaces.get(name)
+        if it is None and name not in aliases:
+            tk = text_keys("export interface %s {" % name, "\n}")
+            if tk is not None:
+                return tk
         if it is not None:
             keys = {}
             for m in it["members"]:
@@ -84,7 +118,7 @@ def object_keys_of_expr(e, out, fn_name):
     def schema_keys(cname):
         c = consts.get(cname)
         if c is None or c["init"] is None:
-            return None
+            return text_keys("export const %s = z.object({" % cname, "\n});")
         try:
             s = sh.zod_shape(c["init"])
         except sh.ShapeError:
@@ -147,8 +181,9 @@ def run_case(a):
         if g.run.rc != 0:
             return {"blocked": "rc=%s %s" % (g.run.rc, g.run.err[-200:])}
         out = g.output
-        if out.errors():
-            return {"blocked": "unparsable output (C01): %s" % out.errors()[0]["msg"]}
+        if out.mods.get("commands.ts") is None or out.mods["commands.ts"].errors:
+            pf = common.parse_fault(out, ("commands.ts",)) or ("commands.ts missing", "commands.ts was not written")
+            return {"parse_fault": pf, "files": files, "cfg": cfg}
         seen = {}
         for fname, lst in out.commands().items():
             for c in lst:
@@ -218,6 +253,10 @@ def run(tier):
             v.blocked += 1
             v.case((sd, mode, case), nontrivial=False)
             v.count("blocked:" + r["blocked"][:40])
+            continue
+        if "parse_fault" in r:
+            v.case((sd, mode, case), nontrivial=True)
+            v.violation("C04 %s commands.ts-does-not-parse %s" % (mode, r["parse_fault"][0]), r["parse_fault"][1], proj.witness_of(r["files"], mode, config=r["cfg"]))
             continue
         for (c, keys, how) in r["obs"]:
             kinds = sorted({p[2] for p in c["params"]})
